@@ -50,6 +50,7 @@ impl Prop for C06 {
             "zero_params_no_space",
             "exact_consumption_6",
             "indefinite_block_last",
+            "optional_typed_pull_on_wrong_type",
         ];
         v.into_iter().map(String::from).collect()
     }
@@ -102,6 +103,24 @@ impl Prop for C06 {
                         ty: PullTy::Tok,
                     })
                     .collect();
+                // sometimes one pull asks for a typed conversion; judged only where the element can
+                // never be of that type (data type error), otherwise the step is skipped
+                if m > 0 && rng.chance(1, 6) {
+                    let j = rng.usize_below(m.min(n.max(1)));
+                    u.plan.pulls[j].ty = *rng.pick(&[
+                        PullTy::U8,
+                        PullTy::I32,
+                        PullTy::F64,
+                        PullTy::Bool,
+                        PullTy::Bytes,
+                        PullTy::Str,
+                        PullTy::Arb,
+                        PullTy::Chr,
+                        PullTy::NumList,
+                        PullTy::ChanList,
+                        PullTy::U64,
+                    ]);
+                }
                 if i > 0 && rng.chance(1, 4) {
                     u.lead = gen_ws(&mut rng, false);
                 }
@@ -195,6 +214,11 @@ impl Prop for C06 {
                     }
                     if n == 6 && m == 6 {
                         stats.probe("exact_consumption_6");
+                    }
+                    for (j, p) in u.plan.pulls.iter().enumerate() {
+                        if j < n && !p.req && p.ty != PullTy::Tok && clearly_wrong_type(p.ty, &u.params[j]) {
+                            stats.probe("optional_typed_pull_on_wrong_type");
+                        }
                     }
                     if matches!(u.params.last(), Some(Elem::BlkIndef { .. })) {
                         stats.probe("indefinite_block_last");
